@@ -36,7 +36,7 @@ class Prop(BaseProp):
                    "rendering of variadic members: optional trailing '[, ...]' accepted iff 'args' is among the types"]
     HEADLINE = ["classes_checked", "members_checked", "type_fields_checked", "inner_lists_checked"]
 
-    NR = {"quick": 700, "thorough": 12000}
+    NR = {"quick": 4000, "thorough": 50000}
 
     def n_cases(self, tier):
         return self.NR[tier] + len(DYCK) * (4 if tier == "quick" else 40)
